@@ -8,7 +8,7 @@ Require Import GV.Spec.UnitWrSpec GV.Model.UnitWr GV.Proofs.UnitWrProofs GV.Proo
 Require Import GV.Model.UnitGlueWr.
 Require GV.Spec.OpEncSpec GV.Model.OpWr GV.Proofs.OpWrProofs GV.Proofs.OpWrDec GV.Proofs.OpWrTotal GV.Proofs.OpRoundtrip.
 Require GV.Model.OpDec.
-Require GV.Spec.ListWrSpec GV.Model.ListsWr GV.Model.ListsRd.
+Require GV.Spec.ListWrSpec GV.Model.ListsWr GV.Model.ListsRd GV.Proofs.ListsWrProofs GV.Proofs.ListsRoundtrip.
 Import ListNotations.
 Local Open Scope N_scope.
 Local Arguments N.add : simpl never.
@@ -299,3 +299,116 @@ Proof.
       all: cbn [FS.form_value] in Hv; injection Hv as <-; reflexivity. }
     subst val. destruct isloc; split; reflexivity.
 Qed.
+
+Module LP := GV.Proofs.ListsWrProofs.
+Module LRT := GV.Proofs.ListsRoundtrip.
+
+(* the attribute step in the vocabulary of the C08 reader helpers: Dwarf::attr_ranges_offset /
+   attr_locations_offset on Attribute::value() of what the C03 reader parsed = the list writer's offset *)
+Lemma list_ref_attr_offset dbg dbg' cx (isloc : bool) i ops rest (u : LR.uctx) :
+  av_write dbg cx (list_ref isloc i) = Ok ops ->
+  (forall o, nth_error (list_offs isloc cx) i = Some o -> o < 2 ^ 64) ->
+  AttrProofs.addr_size_ok (renc cx) -> LR.u_dwo u = false ->
+  exists o val,
+    nth_error (list_offs isloc cx) i = Some o /\
+    AT.parse_attribute dbg' (renc cx)
+       (AT.mkSpec (list_at isloc) (fst (av_form (wc_enc cx) (list_ref isloc i))) 0) (ops_bytes ops ++ rest) = Ok (val, rest) /\
+    (if isloc then LR.attr_locations_offset u (lrd_aval (AT.attr_normalise (list_at isloc) val))
+     else LR.attr_ranges_offset u (lrd_aval (AT.attr_normalise (list_at isloc) val))) = Ok (Some o).
+Proof.
+  intros W Hb HA Hd. destruct (list_ref_attr_read_lemma dbg dbg' cx isloc i ops rest W Hb HA) as [o [val [Eo [Hp [_ Hl]]]]].
+  exists o, val. split; [exact Eo|]. split; [exact Hp|]. rewrite Hl. destruct isloc; cbn [LR.attr_locations_offset LR.attr_ranges_offset].
+  - reflexivity.
+  - unfold LR.ranges_offset_from_raw. rewrite Hd. reflexivity.
+Qed.
+
+Section list_attrs.
+  Variables (dbg dbg' rdbg be fmt64 : bool) (version asz : N) (attrs : list (N * ListWrSpec.attrval)) (rstart lstart : N)
+            (rtbl : list (list ListWrSpec.wrange)) (ltbl : list (list ListWrSpec.wloc))
+            (rb lb : list byte) (ro lo : list N) (rsec lsec other : list byte) (cx : wcx) (u : LR.uctx).
+  Hypothesis Hw : LW.unit_write_lists be fmt64 version asz attrs rstart lstart rtbl ltbl = Ok ((rb, ro), (lb, lo)).
+  Hypothesis Hrs : N.of_nat (length rsec) = rstart.
+  Hypothesis Hls : N.of_nat (length lsec) = lstart.
+  Hypothesis Hwf : LP.unit_wf rtbl ltbl.
+  (* the DIE writer's context is the one Unit::write builds from the list writers' results *)
+  Hypothesis Hcx : wc_enc cx = mkEnc version fmt64 asz /\ wc_be cx = be /\ wc_rng cx = ro /\ wc_loc cx = lo.
+  Hypothesis Hfit : Forall (fun o => o < 2 ^ 64) (ro ++ lo).
+  Hypothesis HA : AttrProofs.addr_size_ok (renc cx).
+  Hypothesis Hd : LR.u_dwo u = false.
+
+  Let offs_fit (isloc : bool) i : forall o, nth_error (list_offs isloc cx) i = Some o -> o < 2 ^ 64.
+  Proof.
+    destruct Hcx as [_ [_ [Er El]]]. rewrite Forall_forall in Hfit. intros o Ho. apply Hfit. apply in_or_app.
+    destruct isloc; cbn [list_offs] in Ho; [right; rewrite <- El|left; rewrite <- Er]; eapply nth_error_In; exact Ho.
+  Qed.
+
+  (* DWARF 5 *)
+  Theorem list_attrs_roundtrip_v5_lemma : version = 5 -> LP.size_ok asz ->
+    (forall i l ops rest, nth_error rtbl i = Some l -> av_write dbg cx (AvRangeListRef i) = Ok ops ->
+       exists o val es,
+         AT.parse_attribute dbg' (renc cx) (AT.mkSpec DW_AT_ranges (fst (av_form (wc_enc cx) (AvRangeListRef i))) 0)
+                            (ops_bytes ops ++ rest) = Ok (val, rest) /\
+         LR.attr_ranges_offset u (lrd_aval (AT.attr_normalise DW_AT_ranges val)) = Ok (Some o) /\
+         ListWrSpec.ents_of (map ListWrSpec.loc_of_range l) = Some es /\
+         LR.raw_ranges_all rdbg (LRT.rd_cfg be asz 5) other (rsec ++ rb) o = Ok (map LR.EvItem (map LRT.tr_ent es)) /\
+         forall x base, N.of_nat (length (LR.x_addr x)) < two64 ->
+           exists rs, ListWrSpec.meaning_rng asz base l = Some rs /\
+             LR.ranges_all rdbg (LRT.rd_cfg be asz 5) x other (rsec ++ rb) o base = Ok (map LR.EvItem rs)) /\
+    (forall i l ops rest, nth_error ltbl i = Some l -> av_write dbg cx (AvLocationListRef i) = Ok ops ->
+       exists o val es,
+         AT.parse_attribute dbg' (renc cx) (AT.mkSpec DW_AT_location (fst (av_form (wc_enc cx) (AvLocationListRef i))) 0)
+                            (ops_bytes ops ++ rest) = Ok (val, rest) /\
+         LR.attr_locations_offset u (lrd_aval (AT.attr_normalise DW_AT_location val)) = Ok (Some o) /\
+         ListWrSpec.ents_of l = Some es /\
+         LR.raw_locations_all rdbg (LRT.rd_cfg be asz 5) false other (lsec ++ lb) o = Ok (map LR.EvItem (map LRT.tr_loc es)) /\
+         forall x base, N.of_nat (length (LR.x_addr x)) < two64 ->
+           exists rs, ListWrSpec.meaning_loc asz base l = Some rs /\
+             LR.locations_all rdbg (LRT.rd_cfg be asz 5) false x other (lsec ++ lb) o base = Ok (map LR.EvItem rs)).
+  Proof.
+    intros Hv Hs. subst version.
+    destruct (LRT.rt_unit_reader_v5 rdbg be fmt64 asz attrs rstart lstart rtbl ltbl rb ro lb lo rsec lsec other Hw Hs Hrs Hls Hwf)
+      as [R L].
+    destruct Hcx as [_ [_ [Er El]]]. split.
+    - intros i l ops rest Hl W. destruct (R i l Hl) as [o [es [Ho [He [Hraw Hres]]]]].
+      destruct (list_ref_attr_offset dbg dbg' cx false i ops rest u W (offs_fit false i) HA Hd) as [o' [val [Eo [Hp Hoff]]]].
+      cbn [list_offs] in Eo. rewrite Er, Ho in Eo. injection Eo as <-. exists o, val, es. repeat (split; [assumption|]). exact Hres.
+    - intros i l ops rest Hl W. destruct (L i l Hl) as [o [es [Ho [He [Hraw Hres]]]]].
+      destruct (list_ref_attr_offset dbg dbg' cx true i ops rest u W (offs_fit true i) HA Hd) as [o' [val [Eo [Hp Hoff]]]].
+      cbn [list_offs] in Eo. rewrite El, Ho in Eo. injection Eo as <-. exists o, val, es. repeat (split; [assumption|]). exact Hres.
+  Qed.
+
+  (* DWARF 2-4 *)
+  Theorem list_attrs_roundtrip_v4_lemma : 2 <= version <= 4 ->
+    (forall i l ops rest, nth_error rtbl i = Some l -> av_write dbg cx (AvRangeListRef i) = Ok ops ->
+       exists o val ps,
+         AT.parse_attribute dbg' (renc cx) (AT.mkSpec DW_AT_ranges (fst (av_form (wc_enc cx) (AvRangeListRef i))) 0)
+                            (ops_bytes ops ++ rest) = Ok (val, rest) /\
+         LR.attr_ranges_offset u (lrd_aval (AT.attr_normalise DW_AT_ranges val)) = Ok (Some o) /\
+         ListWrSpec.pairs_of (map ListWrSpec.loc_of_range l) = Some ps /\
+         LR.raw_ranges_all rdbg (LRT.rd_cfg be asz version) (rsec ++ rb) other o = Ok (map LR.EvItem (map LRT.tr_ent ps)) /\
+         forall x, N.of_nat (length (LR.x_addr x)) < two64 ->
+           exists rs, ListWrSpec.meaning_rng asz (ListWrSpec.unit_base attrs) l = Some rs /\
+             LR.ranges_all rdbg (LRT.rd_cfg be asz version) x (rsec ++ rb) other o (ListWrSpec.unit_base attrs) = Ok (map LR.EvItem rs)) /\
+    (forall i l ops rest, nth_error ltbl i = Some l -> av_write dbg cx (AvLocationListRef i) = Ok ops ->
+       exists o val ps,
+         AT.parse_attribute dbg' (renc cx) (AT.mkSpec DW_AT_location (fst (av_form (wc_enc cx) (AvLocationListRef i))) 0)
+                            (ops_bytes ops ++ rest) = Ok (val, rest) /\
+         LR.attr_locations_offset u (lrd_aval (AT.attr_normalise DW_AT_location val)) = Ok (Some o) /\
+         ListWrSpec.pairs_of l = Some ps /\
+         LR.raw_locations_all rdbg (LRT.rd_cfg be asz version) false (lsec ++ lb) other o = Ok (map LR.EvItem (map LRT.tr_loc ps)) /\
+         forall x, N.of_nat (length (LR.x_addr x)) < two64 ->
+           exists rs, ListWrSpec.meaning_loc asz (ListWrSpec.unit_base attrs) l = Some rs /\
+             LR.locations_all rdbg (LRT.rd_cfg be asz version) false x (lsec ++ lb) other o (ListWrSpec.unit_base attrs) = Ok (map LR.EvItem rs)).
+  Proof.
+    intros Hv.
+    destruct (LRT.rt_unit_reader_v4 rdbg be fmt64 version asz attrs rstart lstart rtbl ltbl rb ro lb lo rsec lsec other Hw Hv Hrs Hls Hwf)
+      as [R L].
+    destruct Hcx as [_ [_ [Er El]]]. split.
+    - intros i l ops rest Hl W. destruct (R i l Hl) as [o [ps [Ho [He [Hraw Hres]]]]].
+      destruct (list_ref_attr_offset dbg dbg' cx false i ops rest u W (offs_fit false i) HA Hd) as [o' [val [Eo [Hp Hoff]]]].
+      cbn [list_offs] in Eo. rewrite Er, Ho in Eo. injection Eo as <-. exists o, val, ps. repeat (split; [assumption|]). exact Hres.
+    - intros i l ops rest Hl W. destruct (L i l Hl) as [o [ps [Ho [He [Hraw Hres]]]]].
+      destruct (list_ref_attr_offset dbg dbg' cx true i ops rest u W (offs_fit true i) HA Hd) as [o' [val [Eo [Hp Hoff]]]].
+      cbn [list_offs] in Eo. rewrite El, Ho in Eo. injection Eo as <-. exists o, val, ps. repeat (split; [assumption|]). exact Hres.
+  Qed.
+End list_attrs.
